@@ -295,6 +295,8 @@ def run(ctx):
     C01.r8_single_forwarder(ctx)      # the forwarder owns (takes) the outbound receiver: when it ends, later send_data fails, which is what stops the relays
     C09.r2_flag_writer(ctx)           # only close() raises the closed flag (a second writer turns close() into a no-op: nobody is released)
     C09.r8_io_error_closes(ctx)
+    C09.r1_locks(ctx)                 # close() and the FIN handler cannot block each other (lock order), and no write path calls close() with a guard it needs
+    C01.r3_r4_recv_buffer(ctx)        # the receive buffer holds a maximum-size frame: a full buffer is never mistaken for end of input
     r6_loop_exits(ctx)
     r7_no_direction_abort(ctx)
     from . import C01
